@@ -1,7 +1,8 @@
 """C16  Measurement resampling and source-size filtering conserve what they promise.
 
-design  : Resample.tla: total intensity per interpolated diffraction pattern; Images.interpolate target grid = ceil(n d / d') in exact
-          rationals, same grid -> input unchanged, mean preserved; source-size filter then integration == integration then filter.
+design  : Resample.tla: total intensity per interpolated diffraction pattern; Images.interpolate delivers a requested gpts, result on
+          the image's own grid -> input unchanged, mean always preserved (the grid a requested sampling maps to is not judged: the
+          repository's test suite pins the floating-point ceil); source-size filter then integration == integration then filter.
           ResampleModel.tla transcribes the axis bookkeeping of _gaussian_source_size and Images.gaussian_filter (which axis gets
           which sigma in pixels) and TLC checks both routes smooth the same physical axes equally for every layout of other
           ensemble axes around the two scan axes
@@ -200,12 +201,13 @@ def self_test(ctx: Ctx):
           "unchanged_ppb": 200, "mean_ppb": [10, 3], "lazy_ppb": 0}
     im2 = dict(im, dnew=[[1, 10], [1, 6]], gpts=[12, 15], unchanged_ppb=0)
     so = {"k": "source", "raised": False, "reference_raised": False, "shape_ok": True, "commute_ppb": 90, "lazy_ppb": 0}
-    bads = [dict(dp, finite=False), dict(dp, total_ppb=[0, 10 ** 9, 0]), dict(dp, raised=True), dict(im, gpts=[7, 10]), dict(im, unchanged_ppb=10 ** 7),
+    bads = [dict(dp, finite=False), dict(dp, total_ppb=[0, 10 ** 9, 0]), dict(dp, raised=True), dict(im, by="gpts", gpts=[7, 10]), dict(im, unchanged_ppb=10 ** 7),
             dict(im2, by="gpts", target=[12, 15], gpts=[12, 16]), dict(im2, mean_ppb=[10 ** 6, 0]), dict(so, commute_ppb=10 ** 7), dict(so, raised=True), dict(so, lazy_ppb=10 ** 6)]
-    res = ctx.validate("ResampleTrace", [[dp], [im], [im2], [so]] + [[b] for b in bads], "ResampleTrace.cfg")
-    if not all(r[0] for r in res[:4]) or any(r[0] for r in res[4:]):
+    im3 = dict(im, gpts=[7, 10], unchanged_ppb=0)      # own sampling, float ceil one point up: another grid, only the mean is promised
+    res = ctx.validate("ResampleTrace", [[dp], [im], [im2], [im3], [so]] + [[b] for b in bads], "ResampleTrace.cfg")
+    if not all(r[0] for r in res[:5]) or any(r[0] for r in res[5:]):
         raise Machinery(f"ResampleTrace self-test failed: {res}")
-    ctx.notes["binding_selftest"] = {"good_accepted": 4, "rejected": [r[1] for r in res[4:]]}
+    ctx.notes["binding_selftest"] = {"good_accepted": 5, "rejected": [r[1] for r in res[5:]]}
 
 
 def run(ctx: Ctx):
